@@ -180,7 +180,7 @@ fn run_case(seed: u64, index: u64, rep: &mut Report, want: &[&str], md: &mut Mod
             let jsons = if r.chance(1, 3) { serde_json::to_string(&st).ok() } else { None };
             // the value of the anchoring array element, when it is unique in the array: wherever that value is later (the element itself, or
             // the copy an undo made of it), the index belongs next to it - an oracle that does not read the implementation's `redone` pointers
-            let anchor_val = if root == ROOT_ARRAY { let vals: Vec<String> = aref.iter(&txn).map(|o| print_out(&o, &txn, 0)).collect(); let pos = if after { Some(idx as usize) } else if idx > 0 { Some(idx as usize - 1) } else { None }; pos.and_then(|p| vals.get(p).cloned()).filter(|v| vals.iter().filter(|x| *x == v).count() == 1) } else { None };
+            let anchor_val = if root == ROOT_ARRAY { let vals: Vec<String> = aref.iter(&txn).map(|o| print_out(&o, &txn, 0)).collect(); let pos = if after { Some(idx as usize) } else if idx > 0 { Some(idx as usize - 1) } else { None }; pos.and_then(|p| vals.get(p).cloned()).filter(|v| vals.iter().filter(|x| *x == v).count() == 1 && v.starts_with('i') /* integer tags are unique in the whole history; T / F / null are not: another replica may insert an equal value, which is a different element */) } else { None };
             stickies.push(Sticky { bytes: if v2 { st.encode_v2() } else { st.encode_v1() }, v2, json: jsons, root, anchor: got_anchor, after, created_at: step, index: idx, anchor_val });
             script.push(format!("r{} sticky#{} {}@{} {}", i, stickies.len() - 1, root, idx, if after { "After" } else { "Before" }));
             rep.count("stickies_created");
